@@ -171,6 +171,9 @@ PROPS["C02"] = {
              "(votes / stake of voters) or the producer skipped >=1 candidate; distinct = distinct (configuration, per-block tx kinds and senders)."),
     "assumptions": ["stub VM stands in for LuaJIT"],
     "units": [
+        {"pkg": "verifx/c02", "run": "^TestC02ClusterChanges$",
+         "quick": {"checks": 80, "shards": 4, "timeout": 700},
+         "thorough": {"checks": 1500, "shards": 8, "timeout": 2400}},
         {"pkg": "verifx/c02", "run": "^TestC02Determinism$",
          "quick": {"checks": 150, "shards": 10, "timeout": 300, "env": {"VERIF_C02_REPS": 3}},
          "thorough": {"checks": 1800, "shards": 12, "timeout": 2400, "env": {"VERIF_C02_REPS": 8}}},
@@ -526,3 +529,6 @@ _amend("C17", "level_text", "Syncer unit: local / remote stub chains (highest sh
        "Syncer unit: local / remote stub chains (highest shared block 0-12, in a fifth of the cases 497-537 so that the lowest of the 32 anchors is not genesis; the anchor question may be answered 'none' although anchors match - how a busy peer's error status reaches the finder - and the full scan must then still arrive at the highest shared block;")
 
 _amend("C01", "level_text", "failing and to-be-skipped transactions)", "failing and to-be-skipped transactions; in a fifth of the cases a fee-delegating contract that, through a name pointed at it by its creator, is itself the sender of fee-delegated calls)")
+
+_amend("C02", "level_text", "state root, receipts root and receipts bytes must equal the producer's every time.",
+       "state root, receipts root and receipts bytes must equal the producer's every time. Raft unit: blocks with generated mixes of enterprise changeCluster requests (add / remove, malformed, by the admin and by others), admin changes and transfers are built on a node whose consensus layer answers like the raft leader and must be connected with the same roots by a node whose consensus layer answers like a follower.")
